@@ -163,6 +163,8 @@ def _mk(cid, r, blk, **f):
         d["kinds"] = ["vec"] * len(sizes)
     d["via"] = via
     d["runs"] = int(f.get("runs") or _pick(r, [1, 2], [0.88, 0.12]))
+    # hostile initial states: the same array object given to two signals / an integer-typed initial design
+    d["share"] = f.get("share") or (_pick(r, [None, "same-array", "int-ones"], [0.9, 0.06, 0.04]) if via == "direct" else None)
     return d
 
 
@@ -199,6 +201,8 @@ CORNERS = [
     dict(name="restart-after-convergence", hist="conv", runs=2),
     dict(name="restart-after-short-run", hist="short", runs=2),
     dict(name="long-history-small-move", obj="invsum", hist="conv", move=0.01, bounds="ss", sc=1.0),
+    dict(name="two-signals-initialised-from-the-same-array", sizes=[3, 3], kinds=["vec", "vec"], bounds="ss", share="same-array", via="direct"),
+    dict(name="integer-typed-initial-design", sizes=[4, 2], kinds=["vec", "vec"], bounds="default", share="int-ones", via="direct", obj="invsum"),
 ]
 
 
@@ -470,6 +474,16 @@ def run_case(case, ctx):
         x0 = np.where(z, 0.0, x0)
     if not np.any(x0 != 0):
         x0 = lo + 0.5 * (hi - lo)
+    share = case.get("share")
+    if share == "same-array" and not (nsig >= 2 and sizes[0] == sizes[1] and case["via"] == "direct" and case["kinds"][0] == case["kinds"][1] == "vec"
+                                      and np.all(x0[cum[0]:cum[1]] >= lo[cum[1]:cum[2]]) and np.all(x0[cum[0]:cum[1]] <= hi[cum[1]:cum[2]])):
+        share = None
+    if share == "same-array":
+        x0[cum[1]:cum[2]] = x0[cum[0]:cum[1]]          # both signals are initialised from one and the same array object
+    if share == "int-ones" and not (case["via"] == "direct" and np.all(lo <= 1.0) and np.all(hi >= 1.0) and all(k in ("vec", "mat") for k in case["kinds"])):
+        share = None
+    if share == "int-ones":
+        x0 = np.ones(n)                                # given to the signals as an integer-typed array
 
     # ---------------------------------------------------------------- objective
     kind = case["obj"]
@@ -535,6 +549,10 @@ def run_case(case, ctx):
             st = seg.reshape(_shape_for("mat", sizes[i]))
         else:
             st = seg
+        if share == "same-array" and i == 1:
+            st = sigs[0].state
+        if share == "int-ones":
+            st = np.asarray(st).astype(int)
         sigs.append(pym.Signal(f"v{i}", st))
     log = []
     mods = [C["rec"](sigs, [], log)]
